@@ -2041,7 +2041,7 @@ class Stream(AbstractStream):
     @property
     def vle(self) -> eq.VLE:
         """An object that can perform vapor-liquid equilibrium on the stream."""
-        if self.phase == 's': self.phase = 'l'
+        if self.phase in ('s', 'S'): self.phase = 'l'
         self.phases = ('g', 'l')
         return self.vle
 
@@ -2055,7 +2055,7 @@ class Stream(AbstractStream):
     @property
     def sle(self) -> eq.SLE:
         """An object that can perform solid-liquid equilibrium on the stream."""
-        if self.phase not in ('l', 's'): self.phase = 'l'
+        if self.phase not in ('l', 's', 'L', 'S'): self.phase = 'l'
         self.phases = ('s', 'l')
         return self.sle
 
